@@ -118,6 +118,16 @@ class World(BaseWorld):
             if o.raised:
                 raise SetupRejected('c16:model save:' + o.exc_name())
             self.files[fmt] = p
+        # the same model as somebody else's tool (or an older release) wrote it: the
+        # assets listed in another order than the toolbox writes them
+        with open(self.files['json']) as f:
+            doc = json.load(f)
+        if isinstance(doc.get('assets'), dict) and len(doc['assets']) > 1:
+            doc['assets'] = dict(reversed(list(doc['assets'].items())))
+            self.count('probe:model_file_with_assets_in_another_order')
+        self.files['shuf'] = self.path('model_foreign_order.json')
+        with open(self.files['shuf'], 'w') as f:
+            json.dump(doc, f, indent=1)
         self.spec_path = self.path('langspec.json')
         with open(self.spec_path, 'w') as f:
             json.dump(desc['spec'], f)
@@ -125,6 +135,18 @@ class World(BaseWorld):
         with zipfile.ZipFile(self.mar, 'w') as z:
             z.writestr('langspec.json', json.dumps(desc['spec']))
             z.writestr('icons/', '')
+        # a decoy: another revision of the language under the same id and version (every
+        # defense default flipped, one more asset type); some children meet it first
+        decoy = copy.deepcopy(desc['spec'])
+        for a in decoy['assets']:
+            for st in a['attackSteps']:
+                if st['type'] == 'defense':
+                    on = isinstance(st.get('ttc'), dict) and st['ttc'].get('name') == 'Enabled'
+                    st['ttc'] = {'type': 'function', 'name': 'Disabled' if on else 'Enabled',
+                                 'arguments': []}
+        self.decoy_path = self.path('decoy.json')
+        with open(self.decoy_path, 'w') as f:
+            json.dump(decoy, f)
         # .mal only if print -> compile gives the specification back
         self.mal = None
         d = self.path('malsrc')
@@ -146,7 +168,7 @@ class World(BaseWorld):
         # reference executions (API path), one per model file: the asset order of a
         # .yml file (sorted by id) may differ from the .json file's, and node ids follow it
         self.ref_digest = {}
-        for fmt in ('json', 'yml'):
+        for fmt in ('json', 'yml', 'shuf'):
             d, n = self._exec_api(fmt)
             if d is None:
                 raise SetupRejected('generate:' + str(n))
@@ -240,7 +262,7 @@ class World(BaseWorld):
     # -------------------------------------------------------------------- ops
     def gen_op(self, rng):
         kinds = [(3, 'twice'), (2, 'interleaved'), (2, 'regenerated'), (2, 'inputs'),
-                 (2, 'other_work'), (3, 'wrapper'), (3, 'edited')]
+                 (2, 'other_work'), (3, 'wrapper'), (3, 'edited'), (2, 'log_level')]
         kind = weighted(rng, kinds)
         if rng.random() < self.cfg.get('p_child', 0.3):
             kind = 'child'
@@ -250,22 +272,23 @@ class World(BaseWorld):
                 via = 'wrapper_mar'
             if via == 'wrapper_mal' and self.mal is None:
                 via = 'wrapper_mar'
-            op = {'op': kind, 'via': via, 'model_fmt': rng.choice(['json', 'yml']),
+            op = {'op': kind, 'via': via, 'model_fmt': rng.choice(['json', 'yml', 'shuf']),
                   'cwd': rng.choice(['scratch', 'sub', 'root_of_tree'])}
             if kind == 'child':
                 op['hashseed'] = rng.choice([0, 1, 2, rng.randrange(3, 2 ** 31)])
+                op['decoy_first'] = rng.random() < 0.3
             elif rng.random() < 0.5:
                 # the two options of the wrapper, set differently from their defaults
                 op['attach'], op['calc'] = rng.choice([(False, True), (True, False), (False, False)])
             return op
         if kind == 'edited':
-            return {'op': kind, 'model_fmt': rng.choice(['json', 'yml']),
+            return {'op': kind, 'model_fmt': rng.choice(['json', 'yml', 'shuf']),
                     'edits': [{'kind': rng.choice(['from_assoc', 'from_assoc', 'from_assoc', 'assoc',
                                                    'asset', 'defense', 'new_asset']),
                                'i': rng.randrange(1000), 'j': rng.randrange(1000)}
                               for _ in range(rng.choice([1, 1, 2, 3]))],
                     'graph_first': rng.random() < 0.85}
-        return {'op': kind, 'model_fmt': rng.choice(['json', 'yml'])}
+        return {'op': kind, 'model_fmt': rng.choice(['json', 'yml', 'shuf'])}
 
     def apply(self, op):
         kind = op['op']
@@ -418,21 +441,51 @@ class World(BaseWorld):
 
     def do_other_work(self, op):
         # unrelated work in the same process: another language, other graphs, a YAML save
-        other = small_fixed_specs()[1]
-        lg2 = self.LanguageGraph(copy.deepcopy(other))
-        fac2 = self.LanguageClassesFactory(lg2)
-        m2 = self.Model('other', fac2)
-        a = fac2.ns.Host(name='h1')
-        m2.add_asset(a)
-        b = fac2.ns.App(name='app1')
-        m2.add_asset(b)
-        call(self.AttackGraph, lg2, m2)
-        call(m2.save_to_file, self.fresh_path('.yml'))
+        def other_work():
+            other = small_fixed_specs()[1]
+            lg2 = self.LanguageGraph(copy.deepcopy(other))
+            fac2 = self.LanguageClassesFactory(lg2)
+            m2 = self.Model('other', fac2)
+            a = fac2.ns.Host(name='h1')
+            m2.add_asset(a)
+            b = fac2.ns.App(name='app1')
+            m2.add_asset(b)
+            self.AttackGraph(lg2, m2)
+            m2.save_to_file(self.fresh_path('.yml'))
+        o = call(other_work)
+        if o.raised:
+            # the fixed little language works in a fresh process (self-test of the harness)
+            raise Violation('C16.same', f'work with another language fails in a process that '
+                                        f'generated this scenario before: {o.exc!r}')
         d, _ = self._exec_api(op['model_fmt'])
         if d is None:
             raise SetupRejected('generate:late')
         self._same(d, 'generation after unrelated work in the same process', op['model_fmt'])
         self.count('probe:after_other_work')
+        return 'ok'
+
+    def do_log_level(self, op):
+        """The same scenario under the other log level of the toolbox (DEBUG if this run is
+        at the default level, the default if this run is at DEBUG): same graph."""
+        was_debug = self._log_state is not None
+        if was_debug:
+            self._debug_logging_off()
+        else:
+            self._debug_logging_on()
+        try:
+            d, n = self._exec_api(op['model_fmt'])
+        finally:
+            if was_debug:
+                self._debug_logging_on()
+            else:
+                self._debug_logging_off()
+        if d is None:
+            raise Violation('C16.same', f'generation with log level '
+                                        f'{"default" if was_debug else "DEBUG"} failed ({n}) although '
+                                        f'it succeeds with log level {"DEBUG" if was_debug else "default"}')
+        self._same(d, f'generation with log level {"default" if was_debug else "DEBUG"} (first '
+                      f'execution: {"DEBUG" if was_debug else "default"})', op['model_fmt'])
+        self.count('probe:other_log_level')
         return 'ok'
 
     def _lang_file(self, via):
@@ -573,6 +626,9 @@ class World(BaseWorld):
         os.chdir(self.cwd0)
         job = {'via': via, 'spec': self.spec_path, 'lang_file': self._lang_file(via),
                'model_file': self.files[op['model_fmt']], 'cwd': cwd}
+        if op.get('decoy_first'):
+            job['decoy_spec'] = self.decoy_path
+            self.count('probe:child_met_another_revision_of_the_language_first')
         jp = self.fresh_path('.job.json')
         with open(jp, 'w') as f:
             json.dump(job, f)
